@@ -3,6 +3,7 @@ CONSTANTS Streams <- Small
   ReadMax = 1
   MaxReads = 0
   Fails <- NoFail
+  Swaps <- NoSwap
   Cuts <- NoCuts
   D = 0
 INIT Init
